@@ -10,6 +10,19 @@ fn main() {
     if args.len() < 2 {
         usage()
     }
+    if args[1] == "--dump-corpus" {
+        // writes the generated seed inputs of every fuzz target to <VERIF_HOME>/corpus/<target>/
+        vverif::sim::install_panic_hook();
+        vverif::sim::thread_setup();
+        for t in ["decode_codecs", "beacon_text", "dissect", "node_datagrams"] {
+            let dir = format!("{}/corpus/{}", vverif::engine::verif_dir(), t);
+            std::fs::create_dir_all(&dir).expect("corpus dir");
+            for (i, s) in vverif::targets::seed_inputs(t).iter().enumerate() {
+                std::fs::write(format!("{}/seed-{:03}", dir, i), s).expect("write");
+            }
+        }
+        return;
+    }
     let id = args[1].clone();
     let mut tier = match std::env::var("VERIF_TIER").ok().as_deref() {
         Some("thorough") => Tier::Thorough,
